@@ -54,13 +54,23 @@ theorem pred_classes (k : Kind) :
     predOk Generated.C12.opFacts .isBoolean k = (k == .bool) := by
   rw [opfacts_tie]; cases k <;> decide
 
-/-- …but the `aLand` / `aLor` entries are never consulted: cfg.go's `landExpr` / `lorExpr` cases call no
-    method of the checker, so `1 && "a"`-like operands are accepted (witness: two `int` operands) -/
-theorem land_lor_entries_dead :
-    Generated.C12.tcFacts.landLorChecked = false ∧
-    ∀ t : STy, (binY Generated.C12.tcFacts .land none ⟨.s t, .none⟩ ⟨.s t, .none⟩).verdict = .ok := by
+/-- …and since 5877dba the `aLand` / `aLor` entries are consulted: cfg.go's `landExpr` / `lorExpr` cases call
+    `check.logicalExpr`, so two operands of the same type are accepted exactly when that type is boolean
+    (before the repair the entries were dead code: `land_lor_entries_dead_before_repair`) -/
+theorem land_lor_entries_used :
+    Generated.C12.tcFacts.landLorChecked = true ∧
+    ∀ t : STy, (binY Generated.C12.tcFacts .land none ⟨.s t, .none⟩ ⟨.s t, .none⟩).verdict =
+      (if t.under == .bool then .ok else .err) := by
   rw [tcfacts_tie]
-  exact ⟨rfl, fun t => rfl⟩
+  refine ⟨rfl, fun t => ?_⟩
+  rw [logical_typed_agree .land rfl none _ _ rfl rfl rfl rfl rfl rfl]
+  cases t with
+  | basic b => cases b <;> rfl
+  | named n =>
+    obtain ⟨i, u, m⟩ := n
+    have hu : (RVal.none == RVal.ubool) = false := by decide
+    cases u <;> simp [hu, boolResultRv, Spec.binG, Spec.bothConstantG, Opnd.isConst, Spec.matchG, Spec.untypedLike, Ty.isUntyped, Ty.isNil,
+      Spec.underKind, STy.under, Spec.definedOn, BinOp.op, Basic.kind, Res.verdict, Res.bind, bind]
 
 /-! ### pipeline -/
 
@@ -122,14 +132,14 @@ theorem typing_agree (p : Prog) (h : DomP p = true) : verdictY p = verdictG p :=
   unfold verdictY verdictG
   rw [agree Generated.C12.tcFacts p h]
 
-/-- full-strength statements (false on the unchanged tree, see the witnesses) -/
+/-- full-strength statements (false on the current tree, see the witnesses of the findings that are still open) -/
 def RejectsIlltyped : Prop := ∀ p : Prog, verdictG p = .err → verdictY p = .err
 def AcceptsWelltyped : Prop := ∀ p : Prog, verdictG p = .ok → verdictY p = .ok
 def CompileNeverPanics : Prop := ∀ p : Prog, verdictY p ≠ .crash
 
 /-- **ill-typed programs are rejected**: every program of the fragment (all expressions and statements,
-    any nesting) that the Go rules reject and whose check sites are outside the listed classes is
-    rejected by yaegi's checks with an error -/
+    any nesting) that the Go rules reject and whose check sites are outside the classes that are still open
+    (F12-4, F12-5, F12-6, F12-11 channel directions, F12-15, F12-17, F12-18, F12-19) is rejected by yaegi's checks with an error -/
 theorem rejects_illtyped_partial (p : Prog) (hd : DomP p = true) (h : verdictG p = .err) : verdictY p = .err := by
   rw [typing_agree p hd]; exact h
 
@@ -145,13 +155,24 @@ theorem spec_never_crashes_site {α : Type} (r : Res α) (h : r.verdict = .crash
 theorem compile_never_panics_partial (p : Prog) (hd : DomP p = true) (h : verdictG p ≠ .crash) : verdictY p ≠ .crash := by
   rw [typing_agree p hd]; exact h
 
-/-! #### witnesses: each excluded class is a real difference -/
-
 private def body (ss : List Stmt) : Block := ss.foldr Block.cons .nil
 private def main (ss : List Stmt) : Prog := ⟨[], body ss⟩
 private def tInt : Ty := .s (.basic .int)
 private def tStr : Ty := .s (.basic .string)
 private def tN0 : Ty := .s (.named ⟨0, .int, [0]⟩)
+
+/-- the facts the extractor emits for the tree before the third round of repairs (ab398ff): every fact introduced or
+    flipped by 5877dba … f150e30 and 4bcc5b4 / 7402c20 at its old value. The "before" half of the regression examples. -/
+def factsBeforeRound3 : TcFacts :=
+  { Expected.C12.tcFacts with
+    ops := { Expected.C12.opFacts with convNilBoolGuard := false, assignNilGuard := false, constIfaceChecked := false },
+    landLorChecked := false, sendValueChecked := false, sendDirChecked := false, retConstChecked := false,
+    cmpConvErrKept := false, zeroConst := .untypedSign, opAssignZeroChecked := false, quoFloatZeroOk := false,
+    indexNegChecked := false, indexOperandChecked := false, recvDeclKeepsType := false, recvAssignChecked := false,
+    callValueChecked := false, convTypedConstChecked := false }
+def verdictBefore (p : Prog) : Verdict := (checkProg (rulesY factsBeforeRound3) p).verdict
+
+/-! #### regression examples: the replays of the repaired findings agree with the specification, inside the domain -/
 
 /-- F11 (repaired by 3004c84): `for 1 {}` — the condition test records the error and leaves the clause; before the repair
     `cond.rval.Bool()` ran on the constant and panicked. Regression examples: rejected with an error, in the domain. -/
@@ -189,15 +210,6 @@ def progAssertOk : Prog := main [.declz tI3, .declz (.iface 0 []), .define (.ass
 theorem assert_welltyped_accepted : verdictY progAssertOk = .ok ∧ verdictG progAssertOk = .ok := by
   unfold verdictY; rw [tcfacts_tie]; decide
 
-/-- `var a int; x := a && a` -/
-def progLand : Prog := main [.declz tInt, .define (.bin .land (.var 0) (.var 0))]
-theorem logical_operands_witness : verdictY progLand = .ok ∧ verdictG progLand = .err ∧ DomP progLand = false := by
-  unfold verdictY DomP; rw [tcfacts_tie]; decide
-theorem rejects_illtyped_witness : ¬ RejectsIlltyped := fun h => by
-  have := h progLand logical_operands_witness.2.1
-  rw [logical_operands_witness.1] at this
-  cases this
-
 /-- F03 (repaired in the tree the facts are read from: `representableConst` now tests the exact signed
     range): `var x int8 = 200` is rejected, and inside the domain … -/
 def progBitLen : Prog := main [.decl (.s (.basic .int8)) (.lit .int 200 false)]
@@ -209,63 +221,145 @@ theorem bitlen_witness :
     (checkProg (rulesY { Expected.C12.tcFacts with ops := { Expected.C12.opFacts with signedRepr := .bitLen } }) progBitLen).verdict = .ok := by
   decide
 
-/-- `type N0 int; var a N0; var b int = a` — same reflect.Type -/
+/-- F12-3 (5877dba): `var a int; x := a && a`, `var a int; var s string; x := a || s` — rejected; accepted before -/
+def progLand : Prog := main [.declz tInt, .define (.bin .land (.var 0) (.var 0))]
+def progLor : Prog := main [.declz tInt, .declz tStr, .define (.bin .lor (.var 0) (.var 1))]
+theorem logical_operands_fixed :
+    verdictY progLand = .err ∧ verdictG progLand = .err ∧ DomP progLand = true ∧
+    verdictY progLor = .err ∧ verdictG progLor = .err ∧ DomP progLor = true ∧
+    verdictBefore progLand = .ok ∧ verdictBefore progLor = .ok := by
+  unfold verdictY DomP; rw [tcfacts_tie]; decide
+
+/-- F12-7 (82e65a0): `var c chan int; c <- "s"` and `var r <-chan int; r <- 1` — rejected; accepted before -/
+def progSend : Prog := main [.declz (.chan .both (.basic .int)), .send (.var 0) (.lit .string 0 false)]
+def progSendRecvOnly : Prog := main [.declz (.chan .recv (.basic .int)), .send (.var 0) (.lit .int 1 false)]
+theorem send_fixed :
+    verdictY progSend = .err ∧ verdictG progSend = .err ∧ DomP progSend = true ∧
+    verdictY progSendRecvOnly = .err ∧ verdictG progSendRecvOnly = .err ∧ DomP progSendRecvOnly = true ∧
+    verdictBefore progSend = .ok ∧ verdictBefore progSendRecvOnly = .ok := by
+  unfold verdictY DomP; rw [tcfacts_tie]; decide
+
+/-- F12-8 (385eb77): `var b int = nil`, `var a int; x := true + a`, `var i I1 = 1` (I1 = interface{ M0() }),
+    `var a int; x := a == nil` — rejected; accepted before -/
+def progNil : Prog := main [.decl tInt .nil]
+def progBoolLit : Prog := main [.declz tInt, .define (.bin .add (.lit .bool 1 false) (.var 0))]
+def progConstIface : Prog := main [.decl (.iface 1 [0]) (.lit .int 1 false)]
+def progCmpNil : Prog := main [.declz tInt, .define (.cmp .eq (.var 0) .nil)]
+theorem nil_and_boolean_literal_fixed :
+    verdictY progNil = .err ∧ verdictG progNil = .err ∧ DomP progNil = true ∧
+    verdictY progBoolLit = .err ∧ verdictG progBoolLit = .err ∧ DomP progBoolLit = true ∧
+    verdictY progConstIface = .err ∧ verdictG progConstIface = .err ∧ DomP progConstIface = true ∧
+    verdictY progCmpNil = .err ∧ verdictG progCmpNil = .err ∧ DomP progCmpNil = true ∧
+    verdictBefore progNil = .ok ∧ verdictBefore progBoolLit = .ok ∧ verdictBefore progConstIface = .ok ∧
+    verdictBefore progCmpNil = .ok := by
+  unfold verdictY DomP; rw [tcfacts_tie]; decide
+
+/-- F12-9 (03fb34b): `func f() int8 { return 300 }`, `var a int; x := a / int(0)`, `var u uint; x := u == -1`,
+    `var s []int; x := s[-1]`, `var a int; a /= 0` — rejected; accepted before -/
+def progReturnConst : Prog := ⟨[⟨⟨[], [.basic .int8]⟩, body [.ret (.cons (.lit .int 300 false) .nil)]⟩], .nil⟩
+def progTypedZero : Prog := main [.declz tInt, .define (.bin .quo (.var 0) (.conv tInt (.lit .int 0 false)))]
+def progCmpConst : Prog := main [.declz (.s (.basic .uint)), .define (.cmp .eq (.var 0) (.lit .int (-1) false))]
+def progNegIndex : Prog := main [.declz (.slice (.basic .int)), .define (.index (.var 0) (.lit .int (-1) false))]
+def progOpAssignZero : Prog := main [.declz tInt, .opassign .quo 0 (.lit .int 0 false)]
+theorem constants_fixed :
+    verdictY progReturnConst = .err ∧ verdictG progReturnConst = .err ∧ DomP progReturnConst = true ∧
+    verdictY progTypedZero = .err ∧ verdictG progTypedZero = .err ∧ DomP progTypedZero = true ∧
+    verdictY progCmpConst = .err ∧ verdictG progCmpConst = .err ∧ DomP progCmpConst = true ∧
+    verdictY progNegIndex = .err ∧ verdictG progNegIndex = .err ∧ DomP progNegIndex = true ∧
+    verdictY progOpAssignZero = .err ∧ verdictG progOpAssignZero = .err ∧ DomP progOpAssignZero = true ∧
+    verdictBefore progReturnConst = .ok ∧ verdictBefore progTypedZero = .ok ∧ verdictBefore progCmpConst = .ok ∧
+    verdictBefore progNegIndex = .ok ∧ verdictBefore progOpAssignZero = .ok := by
+  unfold verdictY DomP; rw [tcfacts_tie]; decide
+
+/-- F12-10 (8a6620e, 03fb34b): `var a int; x := a[0]` and `var a int; x := a / "s"` — errors; Go panics before -/
+def progIndex : Prog := main [.declz tInt, .define (.index (.var 0) (.lit .int 0 false))]
+def progStrDivisor : Prog := main [.declz tInt, .define (.bin .quo (.var 0) (.lit .string 0 false))]
+theorem compiler_panics_fixed :
+    verdictY progIndex = .err ∧ verdictG progIndex = .err ∧ DomP progIndex = true ∧
+    verdictY progStrDivisor = .err ∧ verdictG progStrDivisor = .err ∧ DomP progStrDivisor = true ∧
+    verdictBefore progIndex = .crash ∧ verdictBefore progStrDivisor = .crash := by
+  unfold verdictY DomP; rw [tcfacts_tie]; decide
+
+/-- F12-11 (03fb34b, 3e34c55): `var f float64; x := f / 0` and `var c chan int; var e interface{} = <-c; e = "s"`
+    are valid Go — accepted; rejected before (the second because the declaration retyped `e` to `int`) -/
+def progFloatZero : Prog := main [.declz (.s (.basic .float64)), .define (.bin .quo (.var 0) (.lit .int 0 false))]
+def progRecvRetype : Prog := main [.declz (.chan .both (.basic .int)), .decl (.iface 0 []) (.recv (.var 0)),
+  .assign 1 (.lit .string 0 false)]
+theorem false_rejections_fixed :
+    verdictY progFloatZero = .ok ∧ verdictG progFloatZero = .ok ∧ DomP progFloatZero = true ∧
+    verdictY progRecvRetype = .ok ∧ verdictG progRecvRetype = .ok ∧ DomP progRecvRetype = true ∧
+    verdictBefore progFloatZero = .err ∧ verdictBefore progRecvRetype = .err := by
+  unfold verdictY DomP; rw [tcfacts_tie]; decide
+
+/-- F12-12 (f150e30): `func f() {}; v := f()` — rejected; outside the description before -/
+def progCallNoValue : Prog := ⟨[⟨⟨[], []⟩, .nil⟩], body [.define (.call 0 .nil)]⟩
+theorem call_without_result_fixed :
+    verdictY progCallNoValue = .err ∧ verdictG progCallNoValue = .err ∧ DomP progCallNoValue = true ∧
+    verdictBefore progCallNoValue = .abstain := by
+  unfold verdictY DomP; rw [tcfacts_tie]; decide
+
+/-! #### witnesses: each class that is still excluded is a real difference -/
+
+/-- F12-5: `type N0 int; var a N0; var b int = a` — same reflect.Type -/
 def progSameReflect : Prog := main [.declz tN0, .decl tInt (.var 0)]
 theorem same_reflect_type_witness : verdictY progSameReflect = .ok ∧ verdictG progSameReflect = .err ∧ DomP progSameReflect = false := by
   unfold verdictY DomP; rw [tcfacts_tie]; decide
+theorem rejects_illtyped_witness : ¬ RejectsIlltyped := fun h => by
+  have := h progSameReflect same_reflect_type_witness.2.1
+  rw [same_reflect_type_witness.1] at this
+  cases this
 
-/-- `var a int; var s string; s = a - a` — the operator node takes the destination type -/
+/-- F12-4: `var a int; var s string; s = a - a` — the operator node takes the destination type -/
 def progPropagated : Prog := main [.declz tInt, .declz tStr, .assign 1 (.bin .sub (.var 0) (.var 0))]
 theorem propagation_witness : verdictY progPropagated = .ok ∧ verdictG progPropagated = .err ∧ DomP progPropagated = false := by
   unfold verdictY DomP; rw [tcfacts_tie]; decide
 
-/-- `var c chan int; c <- "s"` -/
-def progSend : Prog := main [.declz (.chan .both (.basic .int)), .send (.var 0) (.lit .string 0 false)]
-theorem send_unchecked_witness : verdictY progSend = .ok ∧ verdictG progSend = .err ∧ DomP progSend = false := by
-  unfold verdictY DomP; rw [tcfacts_tie]; decide
-
-/-- `var e interface{}; var i int = e` -/
+/-- F12-6: `var e interface{}; var i int = e` -/
 def progIface : Prog := main [.declz (.iface 0 []), .decl tInt (.var 0)]
 theorem interface_to_concrete_witness : verdictY progIface = .ok ∧ verdictG progIface = .err ∧ DomP progIface = false := by
   unfold verdictY DomP; rw [tcfacts_tie]; decide
 
-/-- `var a int; x := a[0]` — Go panic ("nil type") -/
-def progIndex : Prog := main [.declz tInt, .define (.index (.var 0) (.lit .int 0 false))]
-theorem index_non_indexable_witness : verdictY progIndex = .crash ∧ verdictG progIndex = .err := by
-  unfold verdictY; rw [tcfacts_tie]; decide
-theorem compile_never_panics_witness : ¬ CompileNeverPanics := fun h => h progIndex index_non_indexable_witness.1
+/-- F12-17: `v := nil` — a Go panic ("nil reflect type") escapes the compiler; so do `if nil {}`, `int(nil)`, `nil.(int)` -/
+def progDefineNil : Prog := main [.define .nil]
+def progCondNil : Prog := main [.ifS .nil .nil .nil]
+def progConvNil : Prog := main [.define (.conv tInt .nil)]
+theorem nil_operand_witness :
+    verdictY progDefineNil = .crash ∧ verdictG progDefineNil = .err ∧ DomP progDefineNil = false ∧
+    verdictY progCondNil = .crash ∧ verdictG progCondNil = .err ∧
+    verdictY progConvNil = .crash ∧ verdictG progConvNil = .err := by
+  unfold verdictY DomP; rw [tcfacts_tie]; decide
+theorem compile_never_panics_witness : ¬ CompileNeverPanics := fun h => h progDefineNil nil_operand_witness.1
 
-/-- `var a int; var b int = nil` and `x := true + a` -/
-def progNil : Prog := main [.decl tInt .nil]
-def progBoolLit : Prog := main [.declz tInt, .define (.bin .add (.lit .bool 1 false) (.var 0))]
-theorem nil_and_boolean_literal_witness :
-    verdictY progNil = .ok ∧ verdictG progNil = .err ∧ verdictY progBoolLit = .ok ∧ verdictG progBoolLit = .err := by
-  unfold verdictY; rw [tcfacts_tie]; decide
+/-- F12-18: `var a int; x := a << int(-1)` (a negative typed constant shift count) and `var z [0]int; x := z[0]`
+    (a constant index into an array of length 0) are accepted -/
+def progNegShift : Prog := main [.declz tInt, .define (.shift .shl (.var 0) (.conv tInt (.lit .int (-1) false)))]
+def progZeroLenIndex : Prog := main [.declz (.array 0 (.basic .int)), .define (.index (.var 0) (.lit .int 0 false))]
+theorem constant_value_unexamined_witness :
+    verdictY progNegShift = .ok ∧ verdictG progNegShift = .err ∧ DomP progNegShift = false ∧
+    verdictY progZeroLenIndex = .ok ∧ verdictG progZeroLenIndex = .err ∧ DomP progZeroLenIndex = false := by
+  unfold verdictY DomP; rw [tcfacts_tie]; decide
 
-/-- `func f() int8 { return 300 }` — no representability check in a return -/
-def progReturnConst : Prog := ⟨[⟨⟨[], [.basic .int8]⟩, body [.ret (.cons (.lit .int 300 false) .nil)]⟩], .nil⟩
-theorem return_constant_witness : verdictY progReturnConst = .ok ∧ verdictG progReturnConst = .err := by
-  unfold verdictY; rw [tcfacts_tie]; decide
+/-- F12-19: `type N4 bool; var a int; var c N4; var z bool = (a < a) && c` — the comparison has type bool, so has the
+    conjunction (Go: N4, not assignable to bool) -/
+def tN4 : Ty := .s (.named ⟨4, .bool, []⟩)
+def progCmpLogical : Prog := main [.declz tInt, .declz tN4,
+  .decl (.s (.basic .bool)) (.bin .land (.cmp .lt (.var 0) (.var 0)) (.var 1))]
+theorem comparison_operand_of_logical_witness :
+    verdictY progCmpLogical = .ok ∧ verdictG progCmpLogical = .err ∧ DomP progCmpLogical = false := by
+  unfold verdictY DomP; rw [tcfacts_tie]; decide
 
-/-- a typed constant zero divisor is not seen by `zeroConst` (only untyped ones are): `a / int(0)` -/
-def progTypedZero : Prog := main [.declz tInt, .define (.bin .quo (.var 0) (.conv tInt (.lit .int 0 false)))]
-theorem typed_zero_divisor_witness : verdictY progTypedZero = .ok ∧ verdictG progTypedZero = .err := by
-  unfold verdictY; rw [tcfacts_tie]; decide
+/-- F12-21: `func f() {}; v := int(f())` — cfg.go does not call `callValue` for a conversion: a Go panic escapes the compiler -/
+def progConvNoValue : Prog := ⟨[⟨⟨[], []⟩, .nil⟩], body [.define (.conv tInt (.call 0 .nil))]⟩
+theorem call_value_in_conversion_witness :
+    verdictY progConvNoValue = .crash ∧ verdictG progConvNoValue = .err ∧ DomP progConvNoValue = false := by
+  unfold verdictY DomP; rw [tcfacts_tie]; decide
 
-/-- false rejections: `var f float64; x := f / 0` and `var a chan int; var b <-chan int; x := a == b` are valid Go -/
-def progFloatZero : Prog := main [.declz (.s (.basic .float64)), .define (.bin .quo (.var 0) (.lit .int 0 false))]
+/-- F12-11 (open part): `var a chan int; var b <-chan int; x := a == b` is valid Go and is rejected -/
 def progChanCmp : Prog := main [.declz (.chan .both (.basic .int)), .declz (.chan .recv (.basic .int)), .define (.cmp .eq (.var 0) (.var 1))]
-theorem accepts_welltyped_witness :
-    verdictG progFloatZero = .ok ∧ verdictY progFloatZero = .err ∧ verdictG progChanCmp = .ok ∧ verdictY progChanCmp = .err := by
-  unfold verdictY; rw [tcfacts_tie]; decide
-/-- `var c chan int; var e interface{} = <-c; e = "s"` is valid Go; the declaration retypes `e` to `int`
-    ("assign by reading from a receiving channel": `dest.typ = src.typ`), so the assignment is rejected -/
-def progRecvRetype : Prog := main [.declz (.chan .both (.basic .int)), .decl (.iface 0 []) (.recv (.var 0)),
-  .assign 1 (.lit .string 0 false)]
-theorem receive_retypes_witness : verdictG progRecvRetype = .ok ∧ verdictY progRecvRetype = .err ∧ DomP progRecvRetype = false := by
+theorem accepts_welltyped_witness : verdictG progChanCmp = .ok ∧ verdictY progChanCmp = .err ∧ DomP progChanCmp = false := by
   unfold verdictY DomP; rw [tcfacts_tie]; decide
 theorem accepts_welltyped_full_false : ¬ AcceptsWelltyped := fun h => by
-  have := h progFloatZero accepts_welltyped_witness.1
+  have := h progChanCmp accepts_welltyped_witness.1
   rw [accepts_welltyped_witness.2.1] at this
   cases this
 
@@ -279,7 +373,8 @@ private def fBody : Block := body [
   .ret (.cons (.bin .mul (.var 0) (.lit .int 2 false)) .nil)]
 def progGood : Prog := ⟨[⟨fSig, fBody⟩],
   body [.declz tInt, .declz tStr, .define (.call 0 (.cons (.var 0) (.cons (.var 1) .nil))),
-        .forS (.cmp .ne (.var 2) (.var 0)) (body [.incdec 2, .opassign .add 1 (.lit .string 0 false)])]⟩
+        .forS (.bin .land (.cmp .ne (.var 2) (.var 0)) (.cmp .lt (.var 0) (.lit .int 9 false)))
+          (body [.incdec 2, .opassign .add 1 (.lit .string 0 false), .opassign .quo 0 (.lit .int 2 false)])]⟩
 def progBadArg : Prog := ⟨[⟨fSig, fBody⟩],
   body [.declz tInt, .declz tStr, .define (.call 0 (.cons (.var 1) (.cons (.var 1) .nil)))]⟩
 example : DomP progGood = true ∧ verdictG progGood = .ok ∧ verdictY progGood = .ok := by
@@ -360,5 +455,72 @@ theorem representable_int_bitlen_partial (v : Int) (b : Basic) (hb : b.kind.isIn
     (hg : inBitLenGap b.kind v = false) :
     representableConstY { Expected.C12.opFacts with signedRepr := .bitLen } (.int v) b.kind = Spec.representableG (.int v) b :=
   representable_int_bitlen v b hb hg
+
+/-! #### the rules repaired in the third round: full strength (no domain, no class) -/
+
+/-- F12-12: a call used as a single value is decided as the specification says for EVERY result list
+    (none: error; one: its type; several: outside the description on both sides) -/
+theorem call_value_correct (rets : List STy) :
+    callValueY Generated.C12.tcFacts false rets = Spec.callValueG false rets := by
+  rw [tcfacts_tie]; exact callValue_agree rets
+/-- …except as the operand of a conversion `T(f())`, where cfg.go skips `callValue`: agreement exactly for one result (F12-21) -/
+theorem call_value_conversion_partial (rets : List STy) :
+    (callValueY Generated.C12.tcFacts true rets = Spec.callValueG true rets) ↔ rets.length = 1 := by
+  rw [tcfacts_tie]; exact callValue_conv_agree rets
+
+/-- F12-7: a send statement is decided as the specification says (direction, then assignability of the value to the
+    element type) for every channel operand but `nil` and every value on which the assignment check itself agrees -/
+theorem send_correct (c v : Opnd) (hn : c.ty ≠ .nil)
+    (ha : ∀ d t, c.ty = .chan d t →
+      assignmentY Generated.C12.opFacts v (.s t) = (if Spec.assignableG v (.s t) then .ok () else .err)) :
+    sendY Generated.C12.tcFacts c v = Spec.sendG c v := by
+  rw [tcfacts_tie]; exact send_agree c v hn (by rw [opfacts_tie] at ha; exact ha)
+
+/-- F12-7, typed non-constant values: the only sends still decided differently are those of the open classes of
+    assignments (an interface value for a concrete element type, F12-6; a reflect collision, F12-5) -/
+theorem send_typed_correct (c v : Opnd) (hn : c.ty ≠ .nil) (hv : v.rv = .none) (hvt : v.ty.isUntyped = false)
+    (h1 : ∀ d t, c.ty = .chan d t → v.ty.isIface = false)
+    (h2 : ∀ d t, c.ty = .chan d t → reflectCollision v.ty (.s t) = false) :
+    sendY Generated.C12.tcFacts c v = Spec.sendG c v := by
+  rw [tcfacts_tie]; exact send_typed_agree c v hn hv hvt h1 h2
+
+/-- F12-3: `&&` / `||` on typed non-constant operands of non-interface types (in any propagation zone) -/
+theorem logical_typed_correct (op : BinOp) (hop : op.propagates = false) (z : Option Ty) (x y : Opnd)
+    (hx : x.rv = .none) (hy : y.rv = .none) (hxt : x.ty.isUntyped = false) (hyt : y.ty.isUntyped = false)
+    (hxi : x.ty.isIface = false) (hyi : y.ty.isIface = false) :
+    binY Generated.C12.tcFacts op z x y = Spec.binG op z x y := by
+  rw [tcfacts_tie]; exact logical_typed_agree op hop z x y hx hy hxt hyt hxi hyi
+
+/-- F12-10: an operand that does not support indexing (a non-string simple type, a pointer, a channel, a function,
+    a struct, an interface) is an error on both sides, whatever the index: no Go panic, no acceptance -/
+theorem index_non_indexable_correct (a i : Opnd) (ha : a.rv = .none)
+    (hb : (match a.ty with
+           | .s t => t.under != .string
+           | .ptr _ | .chan _ _ | .func _ _ | .struct _ _ _ | .iface _ _ => true
+           | _ => false) = true) :
+    indexY Generated.C12.tcFacts a i = .err ∧ Spec.indexG a i = .err := by
+  rw [tcfacts_tie]; exact index_non_indexable_agree a i ha hb
+
+/-- F12-9 / F12-10 / F12-11: `zeroConst` never panics, and on an operand of numeric type it sees exactly the zero
+    constants of the specification, typed or not -/
+theorem zero_const_correct (y : Opnd) :
+    (∃ b, zeroConstY Generated.C12.tcFacts y = .ok b) ∧
+    (isNumberT Generated.C12.opFacts y.ty = true → zeroConstY Generated.C12.tcFacts y = .ok (Spec.isZeroConst y)) := by
+  rw [tcfacts_tie, opfacts_tie]; exact ⟨zeroConst_total y, zeroConst_agree y⟩
+
+/-- F12-9: an integer constant returned for a basic integer result type: accepted exactly when in range -/
+theorem return_int_const_correct (v : Int) (b : Basic) (hb : b.kind.isInteger = true) :
+    retValsY Generated.C12.tcFacts [.basic b] [(.plain, ⟨.untyped .int, .const (.int v)⟩)] =
+      (if Spec.representableG (.int v) b then .ok () else .err) := by
+  rw [tcfacts_tie]; exact ret_int_const_agree v b hb
+
+/-- F12-9: a negative constant index (untyped integer or typed) is rejected whatever the bound -/
+theorem negative_index_rejected (i i' : Opnd) (max : Option Nat)
+    (hc : convertUntypedY Generated.C12.opFacts i (.s (.basic .int)) = .ok i')
+    (v : Int) (hv : i'.rv = .const (.int v) ∨ i'.rv = .typed (some v)) (hneg : v < 0) :
+    indexCheckY Generated.C12.tcFacts i max = .err := by
+  have hT : Generated.C12.tcFacts.indexNegChecked = true := by rw [tcfacts_tie]; rfl
+  have ho : Generated.C12.tcFacts.ops = Generated.C12.opFacts := by rw [tcfacts_tie, opfacts_tie]; rfl
+  exact index_negative_rejected _ hT i i' max (by rw [ho]; exact hc) v hv hneg
 
 end YaegiVerif.Props.C12
